@@ -96,6 +96,7 @@ def run_case(case, be):
             if k == "get_points": body = body.get_points(op["ixs"])
             elif k == "select_frames": body = body.select_frames(op["ixs"])
             elif k == "slice_step": body = body.slice_step(op["by"])
+            elif k == "slice": body = body[slice(op["a"], op["b"], op["step"])]            # frame selection by a Python slice (any bounds, positive step)
             elif k == "zero_filled": body = body.zero_filled()
             elif k == "copy":
                 orig = body
